@@ -20,6 +20,11 @@ inductive Op where
   | timer (dt : Nat)
   | publish (reqId : Nat) (acks : Option (List (Nat × Nat)))
   | republish (sid seq : Nat)
+  | modifySub (sid priority interval ka life : Nat)
+  | setMode (sid iid : Nat) (mode : Mode)
+  | modifyItem (sid iid handle qsize : Nat) (discardOldest : Bool) (sampling : Option Nat)
+  | setTriggering (sid iid : Nat) (add remove : List Nat)
+  | resend (sid : Nat)
   | take                                   -- the transport takes the queued publish responses
 deriving Repr
 
@@ -48,6 +53,13 @@ def gstep (c : Cfg) (maxQ : Nat) (g : G) : Op → Option G
     | .ok (ss, _) => some { g with ss := ss }
     | .panic => none
   | .republish sid seq => some { g with ss := (republish g.ss sid seq).1 }
+  | .modifySub sid p i k l => some { g with ss := (modifySub g.ss sid p i k l).1 }
+  | .setMode sid iid m => some { g with ss := (setMode g.ss sid iid m).1 }
+  | .modifyItem sid iid h q d s =>
+    if (modifyItem g.ss maxQ sid iid h q d s).2 = .panic then none
+    else some { g with ss := (modifyItem g.ss maxQ sid iid h q d s).1 }
+  | .setTriggering sid iid a r => some { g with ss := (setTriggering g.ss sid iid a r).1 }
+  | .resend sid => some { g with ss := (resendData g.ss sid).1 }
   | .take =>
     let (ss, rs) := takeResponses g.ss
     some { g with ss := ss, answered := g.answered ++ rs.map (·.reqId),
